@@ -445,7 +445,21 @@ pub fn gen_macro_run(seed: u64, fixtures: &[crate::procsim::CorpusDoc]) -> Macro
             ));
         }
         if rng.chance(1, 2) {
-            let n = rng.pick(&named).clone();
+            // prefer a definition that some other definition merely aliases
+            // (`"Handle": {"$ref": ".../Token"}`): the impls declared for the
+            // replacement decide which impls the aliasing newtype gets
+            let aliased: Vec<String> = serde_json::from_str::<Value>(&doc)
+                .ok()
+                .and_then(|v| v.get("definitions").or_else(|| v.get("$defs")).and_then(|d| d.as_object().cloned()))
+                .map(|defs| {
+                    defs.values()
+                        .filter(|d| d.as_object().map(|o| o.len() == 1).unwrap_or(false))
+                        .filter_map(|d| d.get("$ref").and_then(|r| r.as_str()).map(|r| r.rsplit('/').next().unwrap_or("").to_string()))
+                        .filter(|t| named.contains(t))
+                        .collect()
+                })
+                .unwrap_or_default();
+            let n = if !aliased.is_empty() && rng.chance(2, 3) { rng.pick(&aliased).clone() } else { rng.pick(&named).clone() };
             let impls = match rng.below(4) {
                 0 => vec![],
                 1 => vec![ImplSpec { maybe: true, name: "Display".into() }],
